@@ -102,17 +102,21 @@ def h_filters(flags, nm, nd=None):
         cl = R.Claims(part, ex, ID)
         perms = [p for p in itertools.permutations(range(nf)) if p != tuple(range(nf))]
 
+        cur = [None]
+
         def body(c):
             A = Scenario(c, flags, nm, nd)
             ia = snapshot(A.fit(fx))
             res = []
-            for p in perms:
+            for p in [cur[0]]:
                 B = permuted(A, p)
                 res.append((p, B, snapshot(B.fit(fx))))
             c.vars = (A, res)
             return ia
 
         with loader.Coverage() as cov:
+          for p_ in perms:
+            cur[0] = p_
             for c, out in ex.run(body):
                 A, res = c.vars
                 if out[0] == 'exc':
@@ -145,17 +149,21 @@ def h_models(flags, nm, nd=None):
         cl = R.Claims(part, ex, ID)
         perms = [p for p in itertools.permutations(range(nm)) if p != tuple(range(nm))]
 
+        cur = [None]
+
         def body(c):
             A = Scenario(c, flags, nm, nd)
             ia = snapshot(A.fit(fx))
             res = []
-            for p in perms:
+            for p in [cur[0]]:
                 B = model_permuted(A, p)
                 res.append((p, B, snapshot(B.fit(fx))))
             c.vars = (A, res)
             return ia
 
         with loader.Coverage() as cov:
+          for p_ in perms:
+            cur[0] = p_
             for c, out in ex.run(body):
                 A, res = c.vars
                 if out[0] == 'exc':
@@ -186,12 +194,71 @@ def h_scale(flags, nm):
     def run(part):
         std_assumptions(part)
         part.bounds = {'invariance': 'flux scaling by any c > 0', 'filters': nf, 'models': nm, 'flags': ''.join(map(str, flags))}
-        part.assumptions.add("log10 obeys the product rule log10(c*x) = log10 c + log10 x for positive c, x (the only property of log used)")
+        part.assumptions |= {"log10 obeys the product rule log10(c*x) = log10 c + log10 x for positive c, x (the only property of log used)",
+                             "lemma chaining: at the boundaries of get_log_fluxes / linear_regression / optimal_scaling / chi_squared the second "
+                             "(scaled) run is proved to be the first one shifted by log10 c before the run continues; each lemma is a discharged query"}
         fx = fitfix.Fit()
         ex = C.Explorer(query_timeout_ms=120000)
         cl = R.Claims(part, ex, ID)
+        st = {}
+        SrcCls = fx.source_mod.Source
+        fr = fx.fr
+        inner = dict(glf=SrcCls.get_log_fluxes, lr=fr.linear_regression, os=fr.optimal_scaling, chi=fr.chi_squared)
+
+        def lemma(goals, label):
+            c = C.ctx()
+            if cl.claim(c, conj(goals), label, st['inputs'], replay_rel, timeout_ms=120000):
+                c.pre.append(conj(goals))
+
+        def flat(x):
+            return list(symnp._obj(su.value_of(x)).reshape(-1))
+
+        def glf(self):
+            r = inner['glf'](self)
+            if st['run'] == 'A':
+                st['glfA'] = r
+            else:
+                (wa, ya, ea), (wb, yb, eb) = [tuple(flat(x) for x in g_) for g_ in (st['glfA'], r)]
+                g = []
+                for j, fl in enumerate(flags):
+                    g.append(C.same(wa[j], wb[j]))
+                    if fl in (1, 2, 3, 4):
+                        g.append(C.same(yb[j], ya[j] + st['lc']))
+                    if fl != 9:
+                        g.append(C.same(ea[j], eb[j]))
+                lemma(g, 'I3 lemma 1: transformed fluxes shift by log10 c; weights and errors unchanged')
+            return r
+
+        def lr(*a):
+            r = inner['lr'](*a)
+            if st['run'] == 'A':
+                st['lrA'] = (r[0].copy(), r[1].copy())      # Models.fit clamps these arrays in place
+            else:
+                g = [C.same(x, y) for x, y in zip(flat(st['lrA'][0]), flat(r[0]))]
+                g += [C.same(y, x - 0.5 * st['lc']) for x, y in zip(flat(st['lrA'][1]), flat(r[1]))]
+                lemma(g, 'I3 lemma 2: regression A_V equal, scale shifted by -0.5*log10 c')
+            return r
+
+        def os_(*a):
+            r = inner['os'](*a)
+            if st['run'] == 'A':
+                st['osA'] = r.copy()
+            elif np.shape(r) == np.shape(st.get('osA')):
+                lemma([C.same(y, x - 0.5 * st['lc']) for x, y in zip(flat(st['osA']), flat(r))],
+                      'I3 lemma 3: re-optimised scale shifted by -0.5*log10 c')
+            return r
+
+        def chi(*a):
+            r = inner['chi'](*a)
+            if st['run'] == 'A':
+                st['chiA'] = r.copy()
+            else:
+                lemma([C.same(x, y) for x, y in zip(flat(st['chiA']), flat(r))], 'I3 lemma 4: chi2 unchanged')
+            return r
+        SrcCls.get_log_fluxes, fr.linear_regression, fr.optimal_scaling, fr.chi_squared = glf, lr, os_, chi
 
         def body(c):
+            st.clear()
             A = Scenario(c, flags, nm)
             cc = C.fresh_real('c')
             c.assume(cc > 0)
@@ -205,7 +272,13 @@ def h_scale(flags, nm):
                         symnp._plain(E2)[j] = cc * A.E[j]
             B = variant(A, F=F2, E=E2)
             c.vars = (A, B, cc)
-            return snapshot(A.fit(fx)), snapshot(B.fit(fx))
+            st['lc'] = C.s_log10(cc)
+            st['inputs'] = lambda m: {'A': A.inputs(m), 'B': B.inputs(m), 'kind': 'I3', 'c': mval(m, cc)}
+            st['run'] = 'A'
+            sa = snapshot(A.fit(fx))
+            st['run'] = 'B'
+            sb = snapshot(B.fit(fx))
+            return sa, sb
 
         with loader.Coverage() as cov:
             for c, out in ex.run(body):
